@@ -22,7 +22,7 @@ func TestMain(m *testing.M) { hx.Main(m) }
 
 // C08 — each command method reports the kernel's verdict for its own request.
 
-var hC08 = hx.New("C08", "rapid-generated histories of 1..10 client operations (GetStatus, GetRules, AddRule, DeleteRule, DeleteRules and every Set* in WaitForReply mode) on one AuditClient over a simulated kernel; per operation a generated script: ack errno (0 or one of 20 errnos), unsolicited sequence-0 audit records and runs of up to 9 transient EINTR/EAGAIN receive failures before every datagram, optional reply with a foreign sequence number, generated status structs (32..48 bytes) and rule payloads, an errno at a chosen delete of DeleteRules; start sequence incl. values just below 2^32. Oracle: result nil <=> every ack had errno 0 and no foreign reply; otherwise errors.Is(err, errno) (AddRule/EEXIST: the documented 'rule exists'); returned data equals what the kernel sent; requests carry the UAPI message type, REQUEST|ACK and the caller's payload. Non-trivial = history with an operation that has errno != 0, an interleaved event, a transient failure or a foreign reply; distinct by hash of the history")
+var hC08 = hx.New("C08", "rapid-generated histories of 1..10 client operations (GetStatus, GetRules, AddRule, DeleteRule, DeleteRules and every Set* in WaitForReply mode) on one AuditClient over a simulated kernel; per operation a generated script: ack errno (0 or any errno 1..133), unsolicited sequence-0 audit records and runs of up to 9 transient EINTR/EAGAIN receive failures before every datagram, optional reply with a foreign sequence number, generated status structs (32..48 bytes) and rule payloads, an errno at a chosen delete of DeleteRules; start sequence incl. values just below 2^32. Oracle: result nil <=> every ack had errno 0 and no foreign reply; otherwise errors.Is(err, errno) (AddRule/EEXIST: the documented 'rule exists'); returned data equals what the kernel sent; requests carry the UAPI message type, REQUEST|ACK and the caller's payload. Non-trivial = history with an operation that has errno != 0, an interleaved event, a transient failure or a foreign reply; distinct by hash of the history")
 
 type Noise struct {
 	Events int   `json:"events,omitempty"`
@@ -86,7 +86,7 @@ func genOp08(t *rapid.T, eagainBudget *int) Op08 {
 	o.U32 = rapid.OneOf(rapid.Uint32(), rapid.SampledFrom([]uint32{0, 1, 2, 1<<31 - 1, 1 << 31, 1<<32 - 1})).Draw(t, "u32")
 	o.Bool = rapid.Bool().Draw(t, "bool")
 	if rapid.IntRange(0, 2).Draw(t, "fails") == 0 {
-		o.Errno = rapid.SampledFrom(errnoChoices).Draw(t, "errno")
+		o.Errno = rapid.OneOf(rapid.SampledFrom(errnoChoices), rapid.IntRange(1, 133)).Draw(t, "errno") // any errno the kernel knows
 	}
 	o.Foreign = rapid.IntRange(0, 9).Draw(t, "foreign") == 0
 	o.Status = rapid.SliceOfN(rapid.Byte(), 44, 44).Draw(t, "status")[:rapid.SampledFrom([]int{32, 36, 40, 44, 44, 44}).Draw(t, "statuslen")]
@@ -96,7 +96,7 @@ func genOp08(t *rapid.T, eagainBudget *int) Op08 {
 	o.Rule = rapid.SliceOfN(rapid.Byte(), 0, 60).Draw(t, "rule")
 	if o.Op == "DeleteRules" && len(o.Rules) > 0 && rapid.Bool().Draw(t, "delerr") {
 		o.DelErrAt = rapid.IntRange(0, len(o.Rules)-1).Draw(t, "delat")
-		o.DelErrno = rapid.SampledFrom(errnoChoices).Draw(t, "delerrno")
+		o.DelErrno = rapid.OneOf(rapid.SampledFrom(errnoChoices), rapid.IntRange(1, 133)).Draw(t, "delerrno")
 	}
 	o.Noise = genNoise(t, eagainBudget)
 	return o
@@ -325,3 +325,27 @@ func propC08(c C08Case) error {
 func TestC08Regress(t *testing.T) { hx.Regress(t, hC08, "TestC08", propC08) }
 
 func TestC08(t *testing.T) { hx.Check(t, hC08, "TestC08", genC08, propC08) }
+
+// TestC08Errnos: every command x every errno 1..133 as the kernel's verdict (no noise).
+func TestC08Errnos(t *testing.T) {
+	n := 0
+	for _, op := range opNames {
+		for e := 1; e <= 133; e++ {
+			o := Op08{Op: op, Errno: e, DelErrAt: -1, U32: 1, Status: make([]byte, 44), Rules: [][]byte{{1, 2, 3}}, Rule: []byte{9}}
+			cases := []C08Case{{StartSeq: 10, Ops: []Op08{o}}}
+			if op == "DeleteRules" {
+				o2 := o
+				o2.Errno, o2.DelErrAt, o2.DelErrno = 0, 0, e
+				cases = append(cases, C08Case{StartSeq: 10, Ops: []Op08{o2}})
+			}
+			for _, c := range cases {
+				hC08.Eval()
+				n++
+				if err := hx.Guard(propC08, c); err != nil {
+					hC08.Fail(t, "TestC08", c, "%v", err)
+				}
+			}
+		}
+	}
+	hC08.Extra("errno_sweep_cases", n)
+}
